@@ -26,6 +26,10 @@ def units(rng):
             "material_basis": mb, "material_unit": rng.choice(MAT[mb]), "temperature_unit": rng.choice(["K", "K", "°C"])}
 
 
+# floats whose shortest spelling uses an exponent (round 6, C07-m11: a hand-written number pattern that knew 'e-NN' but not 'e+NN')
+TEXT_FLOATS = [6.02214076e+23, 1e+16, -1.5e+16, 2.5e-07, 1e22, 1.7976931348623157e308, 5e-324, 1e-5, -3.25e-11, 123456789012345680.0]
+
+
 def meta_value(rng, domain="json"):
     r = rng.random()
     if r < 0.3:
@@ -33,7 +37,8 @@ def meta_value(rng, domain="json"):
     if r < 0.45:
         return rng.randint(-5, 10 ** rng.randint(0, 12))
     if r < 0.62:
-        return rng.choice([0.0, -0.0, 1.5, -2.25, 1e-320, 1.7976931348623157e308, 3.141592653589793, 1e22, 0.1 + 0.2]) if domain == "json" else round(rng.uniform(-50, 500), 4)
+        return rng.choice([0.0, -0.0, 1.5, -2.25, 1e-320, 1.7976931348623157e308, 3.141592653589793, 1e22, 0.1 + 0.2]) if domain == "json" else \
+            (rng.choice(TEXT_FLOATS) if rng.random() < 0.25 else round(rng.uniform(-50, 500), 4))
     if r < 0.72:
         return rng.random() < 0.5
     if r < 0.78:
